@@ -224,15 +224,33 @@ def run_align_cases(ctx, cases):
     return bad
 
 
+def align_linear_check(ip, cv, xs, coef, npts, kind):
+    """x = a*phase + b on each cycle -> a*g + b on the phase grid, for every interpolation kind (a linear quantity is reproduced by
+    linear, quadratic and cubic interpolation AND extrapolation alike).  returns (site, detail) or None"""
+    from emd import cycles
+    try:
+        avg, bins = cycles.phase_align(np.array(ip), np.array(xs), cycles=np.array(cv, dtype=int), npoints=npts, interp_kind=kind)
+    except Exception as e:
+        return ('phase_align', 'interp_kind=%s: raised %s: %s' % (kind, type(e).__name__, e))
+    if avg.shape != (npts, len(coef)):
+        return ('phase_align', 'output shape %s, expected %s' % (avg.shape, (npts, len(coef))))
+    tol = 1e-9 if kind in ('linear', 'slinear') else 1e-7
+    for k, (a, b) in enumerate(coef):
+        if not np.allclose(avg[:, k], a * bins + b, rtol=tol, atol=tol):
+            return ('phase_align', 'cycle %d (%d samples, interp_kind=%s): quantity %.2f*phase%+.2f is not reproduced on the phase grid: '
+                    'max error %.3g' % (k, list(cv).count(k), kind, a, b, np.abs(avg[:, k] - (a * bins + b)).max()))
+    return None
+
+
 def oracle_align_linear(ctx, n, maxlen):
     """x = a*phase + b on each cycle  ->  aligned value at grid point g is a*g + b, whatever the cycle's duration."""
-    from emd import cycles
     fails = []
     for i in range(n):
+        kind = ['linear', 'linear', 'slinear', 'quadratic', 'cubic'][i % 5]
         ncyc = ctx.rng.randint(1, 5)
         ip, cv, xs, coef = [], [], [], []
         for k in range(ncyc):
-            ln = ctx.rng.randint(2, maxlen)
+            ln = max(ctx.rng.randint(2, maxlen), {'quadratic': 3, 'cubic': 4}.get(kind, 2))
             pts = sorted(ctx.rng.sample(range(1, 401), min(ln, 400)))
             a, b = ctx.rng.randint(-8, 8) / 4.0, ctx.rng.randint(-8, 8) / 2.0
             coef.append((a, b))
@@ -240,20 +258,11 @@ def oracle_align_linear(ctx, n, maxlen):
             cv += [k] * len(pts)
             xs += [a * (p / 64.0) + b for p in pts]
         npts = ctx.rng.choice([2, 5, 24, 48, 64])
-        try:
-            avg, bins = cycles.phase_align(np.array(ip), np.array(xs), cycles=np.array(cv, dtype=int), npoints=npts)
-        except Exception as e:
-            return [('phase_align', 'raised %s: %s' % (type(e).__name__, e), dict(ip=ip, cycles=cv, x=xs, npoints=npts))]
-        ctx.count(('align-linear', i), True, 'align-linear')
+        ctx.count(('align-linear', i), True, 'align-linear-' + kind)
         ctx.tol_cmp += 1
-        if avg.shape != (npts, ncyc):
-            return [('phase_align', 'output shape %s, expected %s' % (avg.shape, (npts, ncyc)), dict(ip=ip, cycles=cv, npoints=npts))]
-        for k, (a, b) in enumerate(coef):
-            if not np.allclose(avg[:, k], a * bins + b, rtol=1e-9, atol=1e-9):
-                fails.append(('phase_align', 'cycle %d (%d samples): quantity %.2f*phase%+.2f is not reproduced on the phase grid: '
-                              'max error %.3g' % (k, cv.count(k), a, b, np.abs(avg[:, k] - (a * bins + b)).max()),
-                              dict(ip=ip, cycles=cv, x=xs, npoints=npts)))
-                return fails
+        r = align_linear_check(ip, cv, xs, coef, npts, kind)
+        if r:
+            return [(r[0], r[1], dict(ip=ip, cycles=cv, x=xs, npoints=npts, coef=coef, interp_kind=kind))]
     return fails
 
 
@@ -301,7 +310,7 @@ def run(ctx):
     ctx.rule = ('(1) every label vector over {-1,0,1,2} of length <= %d whose labels are 0..max (gaps, interleaved and unordered labels '
                 'included) x 6 reducing functions + sample projection, exact; (1b) labellings with an ABSENT label below the maximum (every vector over {-1..3} up to length %d + random rejected cycles) x {sum, len, lambda}; (1c) the statistics asked of a Cycles container (cache on / off) and of its iterator; (2) bin_by_phase on random integer edges/phases/values '
                 '(incl. phases on edges, below, above) and on default edges with nbins 2..64; (3) phase_align on cycles of 2..%d '
-                'samples with dyadic increasing phases vs exact rational interpolation, and linear-in-phase quantities; '
+                'samples with dyadic increasing phases vs exact rational interpolation, and linear-in-phase quantities under interp_kind linear / slinear / quadratic / cubic; '
                 'non-trivial = has a gap or >= 2 cycles / populated last bin / extrapolated grid points'
                 % (maxlen, 4 if ctx.quick() else 6, 60 if ctx.quick() else 400))
     ctx.proof(extra=['props/Prop_Tie_Cyclestat.v', 'props/Prop_Tie_Rest.v', 'props/Prop_Tie_Cyciter.v', 'props/Prop_Tie_Cycgen.v', 'props/Prop_Tie_Ctrl.v'])  # translation tie: program regenerated from the source + refinement theorems
@@ -458,6 +467,10 @@ def replay(rec):
                 print('bin', b, avg[b], sel)
                 return True
         return False
+    if 'coef' in i:
+        r = align_linear_check(i['ip'], i['cycles'], i['x'], [tuple(c) for c in i['coef']], i['npoints'], i.get('interp_kind', 'linear'))
+        print(r)
+        return r is not None
     if 'nbins' in i:
         avg, _, _ = cycles.bin_by_phase(np.array(i['ip']), np.array(i['x']), nbins=i['nbins'])
         print(avg[i['bin']])
